@@ -56,6 +56,9 @@ pub enum SStep {
     SessionCut { s: u8, reset: bool },
     Restart { n: u8, kind: u8 },
     Advance { ms: u32 },
+    /// `count` local writes of distinct keys of one length on node n whose broadcasts are all lost
+    /// (the node was offline while writing): gives sessions enough to do that a cut leaves them half way
+    Bulk { n: u8, a: u8, count: u8, klen: u8, first: u16 },
 }
 
 #[derive(Serialize, Deserialize, Clone, Debug)]
@@ -80,6 +83,13 @@ impl Scenario for Swarm {
         let n = rng.urange(8, tier.pick(40, 60));
         let mut steps = Vec::new();
         let crashy = rng.chance(1, 2);
+        if rng.chance(1, 2) {
+            for nd in 0..nodes {
+                if rng.chance(2, 3) {
+                    steps.push(SStep::Bulk { n: nd, a: rng.below(2) as u8, count: rng.range(4, tier.pick(24, 40)) as u8, klen: rng.range(2, 4) as u8, first: rng.below(1296) as u16 });
+                }
+            }
+        }
         for _ in 0..n {
             let nd = rng.below(nodes as u64) as u8;
             let key = |rng: &mut Rng| crate::world::gen_key(rng, 3);
@@ -128,7 +138,7 @@ impl Scenario for Swarm {
             p.nodes -= 1;
             p.skew.truncate(p.nodes as usize);
             p.steps.retain(|s| match s {
-                SStep::Write { n, .. } | SStep::Delete { n, .. } | SStep::Tick { n, .. } | SStep::Restart { n, .. } => *n < p.nodes,
+                SStep::Write { n, .. } | SStep::Delete { n, .. } | SStep::Tick { n, .. } | SStep::Restart { n, .. } | SStep::Bulk { n, .. } => *n < p.nodes,
                 SStep::SessionStart { a, b } => *a < p.nodes && *b < p.nodes,
                 _ => true,
             });
@@ -150,7 +160,7 @@ impl Scenario for Swarm {
     }
 
     fn rule(&self) -> String {
-        "A run is 8-60 steps over 2-5 nodes with clock skew within ±4 min: local writes and prefix deletions, broadcast of each local insert to the other nodes through SimNet (deliver in any order, drop, duplicate, partition/heal), sessions between pairs advanced frame by frame and cut (EOF/reset) at any frame, clean restarts and (in half of the runs) crashes with loss model L1/L2, virtual-time advances; then a closing phase of complete sessions along a random spanning tree until one round is silent (budget nodes+1 rounds). Non-trivial: at least one fault kind fired.".into()
+        "A run is 8-60 steps over 2-5 nodes with clock skew within ±4 min: in half of the runs most nodes first write 4-40 distinct keys of one length whose broadcasts are all lost (so that sessions have dozens of entries to move and a cut leaves them half way); then local writes and prefix deletions, broadcast of each local insert to the other nodes through SimNet (deliver in any order, drop, duplicate, partition/heal), sessions between pairs advanced frame by frame and cut (EOF/reset) at any frame, clean restarts and (in half of the runs) crashes with loss model L1/L2, virtual-time advances; then a closing phase of complete sessions along a random spanning tree until one round is silent (budget nodes+1 rounds). Non-trivial: at least one fault kind fired.".into()
     }
 }
 
@@ -181,6 +191,8 @@ struct Sess {
     res_a: Rc<RefCell<Option<Result<SyncOutcome, String>>>>,
     res_b: Rc<RefCell<Option<Result<SyncOutcome, String>>>>,
     cut: bool,
+    /// frames released so far
+    frames: std::cell::Cell<u32>,
 }
 
 impl Sess {
@@ -194,6 +206,7 @@ impl Sess {
             let held = p.held_bytes();
             if let Some(n) = first_frame_len(&held) {
                 p.release(n);
+                self.frames.set(self.frames.get() + 1);
                 return true;
             } else if !held.is_empty() && p.writer_closed() {
                 p.release(held.len());
@@ -259,7 +272,7 @@ fn start_session(nodes: &[SimNode], a: u8, b: u8) -> Option<Sess> {
         let out = st.into_outcome();
         *rb.borrow_mut() = Some(r.map(|_| out).map_err(|e| format!("{e:#}")));
     });
-    Some(Sess { a, b, a2b, b2a, ta, tb, res_a, res_b, cut: false })
+    Some(Sess { a, b, a2b, b2a, ta, tb, res_a, res_b, cut: false, frames: std::cell::Cell::new(0) })
 }
 
 /// Run a session to completion; returns (sent+recv on both sides) or an error string.
@@ -347,6 +360,28 @@ async fn run(plan: &SwarmPlan, cx: &mut Cx, big_skew: bool) -> Res {
                 let r = nd.handle.delete_prefix(ns, w.author_id(*a), k.clone().into()).await;
                 cx.ev("delete", format!("n{i} a{a} {} -> {}", hex::encode(k), r.is_ok()));
             }
+            SStep::Bulk { n: i, a, count, klen, first } => {
+                let i = (*i as usize) % n;
+                pump_events!();
+                let before = net.len();
+                let Some(nd) = nodes[i].node.as_ref() else { continue };
+                let klen = (*klen).clamp(1, 5) as u32;
+                let space = 6u32.pow(klen);
+                for j in 0..*count as u32 {
+                    let mut v = (*first as u32 + j) % space;
+                    let k: Vec<u8> = (0..klen).map(|_| { let d = v % 6; v /= 6; crate::world::ALPHABET[d as usize] }).collect();
+                    let (hash, len) = content(1 + (j % 3) as u8);
+                    let _ = nd.handle.insert_local(ns, w.author_id(*a), k.into(), hash, len).await;
+                }
+                pump_events!();
+                let lost = net.len() - before;
+                net.truncate(before);
+                for _ in 0..lost {
+                    cx.fault("gossip_dropped");
+                }
+                cx.probe("bulk_writes_with_lost_broadcasts");
+                cx.ev("bulk", format!("n{i} a{a} {count} keys of {klen} bytes"));
+            }
             SStep::Tick { n: i, dt } => {
                 let i = (*i as usize) % n;
                 nodes[i].clock += *dt as u64;
@@ -425,6 +460,13 @@ async fn run(plan: &SwarmPlan, cx: &mut Cx, big_skew: bool) -> Res {
                 if sessions[idx].done() {
                     let s = sessions.remove(idx);
                     cx.ev("session-done", format!("{}->{} cut={}", s.a, s.b, s.cut));
+                    if !s.cut {
+                        if let Some(Ok(o)) = s.res_a.borrow().as_ref() {
+                            if o.num_sent + o.num_recv >= 8 {
+                                cx.probe("mid_run_session_moved_8_or_more_entries");
+                            }
+                        }
+                    }
                 }
             }
             SStep::SessionCut { s, reset } => {
@@ -432,8 +474,15 @@ async fn run(plan: &SwarmPlan, cx: &mut Cx, big_skew: bool) -> Res {
                     continue;
                 }
                 let idx = *s as usize % sessions.len();
+                let frames_before = sessions[idx].frames.get();
                 sessions[idx].cut(*reset);
                 cx.fault(if *reset { "session_reset" } else { "session_cut" });
+                if frames_before >= 2 {
+                    cx.probe("session_cut_after_2_or_more_frames");
+                }
+                if frames_before >= 4 {
+                    cx.probe("session_cut_after_4_or_more_frames");
+                }
                 barrier().await;
             }
             SStep::Restart { n: i, kind } => {
@@ -531,6 +580,12 @@ async fn run(plan: &SwarmPlan, cx: &mut Cx, big_skew: bool) -> Res {
             }
         }
         cx.ev("closing-round", format!("{round} transferred={transferred}"));
+        if round == 0 && transferred >= 10 {
+            cx.probe("closing_phase_moved_10_or_more_entries");
+        }
+        if round >= 2 && transferred > 0 {
+            cx.probe("closing_phase_needed_3_or_more_rounds");
+        }
         if transferred == 0 {
             silent = true;
             break;
